@@ -2533,7 +2533,7 @@ fn gen_c02(r: &mut Rng, seed: u64) -> Scenario {
     let mut tags = sc.tags.clone();
     let nh = r.range(1, 4);
     for _ in 0..nh {
-        match r.below(21) {
+        match r.below(22) {
             0 | 1 => {
                 // hostile crash context registers
                 let blamed = match &sc.workload { Workload::Dump(p) => p.opts.blamed, _ => PID };
@@ -2779,6 +2779,35 @@ fn gen_c02(r: &mut Rng, seed: u64) -> Scenario {
                     }
                 }
                 push_tags(&mut tags, &["h:stop-late"]);
+            }
+            21 => {
+                // the program header of the dynamic section points into a vast region that holds no
+                // terminating entry (corrupted header table; the region is some arena of the target)
+                let mut ph_dyn: Option<u64> = None;
+                if let Some(g) = sc.world.regions.iter().find(|g| g.start == EXE_BASE) {
+                    if let Content::Bytes(bytes) = &g.content {
+                        let bb = &bytes.0;
+                        if bb.len() > 64 {
+                            let phoff = u64::from_le_bytes(bb[32..40].try_into().unwrap()) as usize;
+                            let phnum = u16::from_le_bytes(bb[56..58].try_into().unwrap()) as usize;
+                            for i in 0..phnum {
+                                let o = phoff + i * 56;
+                                if o + 56 <= bb.len() && u32::from_le_bytes(bb[o..o + 4].try_into().unwrap()) == 2 {
+                                    ph_dyn = Some(o as u64);
+                                }
+                            }
+                        }
+                    }
+                }
+                let start = 0x6900_0000_0000u64;
+                if let Some(o) = ph_dyn {
+                    if !sc.world.regions.iter().any(|g| g.start < start + (64 << 30) && start < g.end()) {
+                        sc.world.regions.push(RegionSpec { start, len: 64 << 30, perms: "rw-p".into(), offset: 0, inode: 0, name: B(Vec::new()), deleted: false, content: Content::Pattern(r.next()) });
+                        sc.world.regions.sort_by_key(|g| g.start);
+                        sc.world.plants.push((EXE_BASE + o + 16, start - EXE_BASE));
+                        push_tags(&mut tags, &["h:dynamic-without-end"]);
+                    }
+                }
             }
             20 => {
                 // a thread in an uninterruptible sleep that does not end (a vfork parent whose child never
